@@ -76,7 +76,7 @@ package basicnode
 //@   ensures[C11] nb.plainMap__Assembler.ka.ma == nil && nb.plainMap__Assembler.va.ma == nil
 
 //@ func (*plainMap__Assembler).BeginMap(sizeHint) (ma, err)
-//@   requires na != nil && na.w != nil && na.state == maState_initial && sizeHint <= 4611686018427387904
+//@   requires na != nil && na.w != nil && na.state == maState_initial && sizeHint <= 8796093022208
 //@   assigns na.w.t, na.w.m
 //@   ensures[C01,C12] err == nil && ma == iface(na) && wip(na) && len(na.w.t) == 0 && na.state == maState_initial
 //@   ensures[C01,C11] fresh(na.w.t) && fresh(na.w.m)
@@ -149,7 +149,7 @@ package basicnode
 //@   ensures[C01] dyntype(old(mva.ma).w.t[len(old(mva.ma).w.t)-1].v, "*plainBool") && *unbox(old(mva.ma).w.t[len(old(mva.ma).w.t)-1].v, "*plainBool") == v
 
 //@ func (*plainMap__ValueAssembler).BeginMap(sizeHint) (ma, err)
-//@   requires mva != nil && wip(mva.ma) && mva.ma.state == maState_midValue && sizeHint <= 4611686018427387904
+//@   requires mva != nil && wip(mva.ma) && mva.ma.state == maState_midValue && sizeHint <= 8796093022208
 //@   assigns nothing
 //@   ensures[C01,C12] err == nil && fresh(ma) && dyntype(ma, "*plainMap__ValueAssemblerMap")
 //@   ensures[C01,C12] unbox(ma, "*plainMap__ValueAssemblerMap").p == mva.ma && wip(&unbox(ma, "*plainMap__ValueAssemblerMap").ca)
@@ -166,7 +166,7 @@ package basicnode
 //@ func (*plainMap__Assembler).AssignNode(v) (err)
 //@   requires na != nil && na.w != nil && na.state == maState_initial && v != nil
 //@   requires dyntype(v, "*plainMap") ==> unbox(v, "*plainMap") != nil
-//@   requires datamodel.vlen(v.val) <= 4611686018427387904
+//@   requires datamodel.vlen(v.val) <= 8796093022208
 //@   ensures[C01,C11] dyntype(v, "*plainMap") ==> err == nil && na.state == maState_finished && na.w.t == unbox(v, "*plainMap").t && na.w.m == unbox(v, "*plainMap").m
 //@   ensures[C11] dyntype(v, "*plainMap") ==> unbox(v, "*plainMap").t == old(unbox(v, "*plainMap").t) && unbox(v, "*plainMap").m == old(unbox(v, "*plainMap").m)
 //@   ensures[C12] !dyntype(v, "*plainMap") && datamodel.vkind(v.val) != datamodel.Kind_Map ==> iserr(err, "datamodel.ErrWrongKind")
@@ -224,7 +224,7 @@ package basicnode
 //@   ensures[C01,C11] len(nb.plainList__Assembler.w.x) == 0 && nb.plainList__Assembler.w.x == nil
 
 //@ func (*plainList__Assembler).BeginList(sizeHint) (la, err)
-//@   requires na != nil && na.w != nil && na.state == laState_initial && sizeHint <= 4611686018427387904
+//@   requires na != nil && na.w != nil && na.state == laState_initial && sizeHint <= 8796093022208
 //@   assigns na.w.x
 //@   ensures[C01,C12] err == nil && la == iface(na) && listwip(na) && len(na.w.x) == 0 && na.state == laState_initial
 //@   ensures[C01,C11] fresh(na.w.x)
@@ -294,13 +294,13 @@ package basicnode
 //@   ensures[C01,C11] nb.mapBuilder.plainMap__Assembler.state == maState_initial && nb.listBuilder.plainList__Assembler.state == laState_initial
 
 //@ func (*anyBuilder).BeginMap(sizeHint) (ma, err)
-//@   requires nb != nil && nb.kind == datamodel.Kind_Invalid && nb.mapBuilder.plainMap__Assembler.state == maState_initial && sizeHint <= 4611686018427387904
+//@   requires nb != nil && nb.kind == datamodel.Kind_Invalid && nb.mapBuilder.plainMap__Assembler.state == maState_initial && sizeHint <= 8796093022208
 //@   assigns nb.kind, nb.mapBuilder.plainMap__Assembler.w
 //@   ensures[C01,C11] err == nil && nb.kind == datamodel.Kind_Map && fresh(nb.mapBuilder.plainMap__Assembler.w) && ma == iface(&nb.mapBuilder.plainMap__Assembler)
 //@   ensures[C01,C12] wip(&nb.mapBuilder.plainMap__Assembler) && len(nb.mapBuilder.plainMap__Assembler.w.t) == 0 && fresh(nb.mapBuilder.plainMap__Assembler.w.t) && fresh(nb.mapBuilder.plainMap__Assembler.w.m)
 
 //@ func (*anyBuilder).BeginList(sizeHint) (la, err)
-//@   requires nb != nil && nb.kind == datamodel.Kind_Invalid && nb.listBuilder.plainList__Assembler.state == laState_initial && sizeHint <= 4611686018427387904
+//@   requires nb != nil && nb.kind == datamodel.Kind_Invalid && nb.listBuilder.plainList__Assembler.state == laState_initial && sizeHint <= 8796093022208
 //@   assigns nb.kind, nb.listBuilder.plainList__Assembler.w
 //@   ensures[C01,C11] err == nil && nb.kind == datamodel.Kind_List && fresh(nb.listBuilder.plainList__Assembler.w) && la == iface(&nb.listBuilder.plainList__Assembler)
 //@   ensures[C01,C12] listwip(&nb.listBuilder.plainList__Assembler) && len(nb.listBuilder.plainList__Assembler.w.x) == 0 && fresh(nb.listBuilder.plainList__Assembler.w.x)
